@@ -207,7 +207,10 @@ def main():
     ents = [os.path.join(root, d) for d in os.listdir(root) if re.match(r'V\w+-[0-9a-f]{20}$', d)]
     ents.sort(key=lambda p: os.path.getmtime(p), reverse=True)
     for p in ents[10:]:
-        shutil.rmtree(p, ignore_errors=True)
+        # never a directory that was built or used in the last half hour: another check (another
+        # variant, or a scratch copy of the repository) may be running from it right now
+        if time.time() - os.path.getmtime(p) > 1800:
+            shutil.rmtree(p, ignore_errors=True)
     if not a.quiet:
         sys.stderr.write("build.py: built %s in %.1fs\n" % (bdir, time.time() - t0))
     print(exe)
